@@ -208,6 +208,7 @@ macro_rules
         | (with_reducible apply modProc_field_trans; (case hk => (intro; with_reducible rfl)); frame_close)
         | (unfold World.proc; with_reducible rfl)
         | (simp; with_reducible apply modProc_field; intro; with_reducible rfl)
+        | (simp; with_reducible apply modProc_field_trans; (case hk => (intro; with_reducible rfl)); frame_close)
         | (fold_world; frame_close)
         | (fold_proc; frame_close)
         | (split <;> frame_close))
